@@ -384,7 +384,7 @@ func runC14(c *Ctx, r *Report) {
 
 func init() {
 	register("C14", &propDef{
-		explain: "Save-format rules decided on code shape: the string writer is strconv.Quote and the lexer decodes every escape it emits (symbolic execution of the decoder, shared with C02); integers are base 10; each binding is written by a constant one-line format; the printers used for values and functions cannot emit a newline in compact mode; keys are sorted before writing, values are written whole and only under the length limit; predefined constants are skipped. The integral-float marker problem (3.0 saved as 3) is a known finding. Equality of reloaded values and behavioural equality of reloaded functions are not decided. Also: the line reader of AutoLoad has no line-length limit and consults Scanner.Err() on every path.",
+		explain: "Save-format rules decided on code shape: the string writer is strconv.Quote and the lexer decodes every escape it emits (symbolic execution of the decoder, shared with C02); integers are base 10; each binding is written by a constant one-line format; the printers used for values and functions cannot emit a newline in compact mode; keys are sorted before writing, values are written whole and only under the length limit; predefined constants are skipped. The integral-float marker problem (3.0 saved as 3) is a known finding. Equality of reloaded values and behavioural equality of reloaded functions are not decided. Also: the line reader of AutoLoad has no line-length limit and consults Scanner.Err() on every path. Shares C13.R8: loading rewrites the program through ast.Modify, which must carry every attribute over.",
 		assume:  []string{"function bodies saved in compact form re-parse correctly only as far as C02's compact-separator known finding allows", "auto-load evaluates the file one line at a time (bufio.Scanner)"},
 		run:     runC14,
 	})
